@@ -7,7 +7,8 @@
 // events: - | ev,ev,..       c<hex> client bytes (any chunking) | d<name>:<src> delivery |
 //	x<name>:<k> another client removes the k-th message ever delivered to <name> |
 //	p<name> purge | w the client stops reading (every later write fails) |
-//	t the idle timeout fires | r reading fails (connection reset)
+//	t the idle timeout fires | r reading fails (connection reset) |
+//	n the client drops the connection (EOF, if still open) and connects again (N in the outs)
 //
 // The connection ends with EOF after the last event (unless the server closed it before).
 // The real pop3.Server runs the session through the verif entry point VerifServe on a
@@ -254,26 +255,46 @@ func exec(kind string, in []string) []string {
 	if err != nil {
 		panic(err)
 	}
-	conn := newScriptConn()
-	done := make(chan string, 1)
-	go func() {
-		defer func() {
-			if r := recover(); r != nil {
-				fmt.Fprintf(os.Stderr, "session panic: %v\n%s\n", r, debug.Stack())
-				conn.Close()
-				done <- fmt.Sprint(r)
-				return
+	var outs []string
+	sid := 0
+	var cur *session
+	open := func() string {
+		sid++
+		cur = startSession(srv, sid)
+		if !cur.conn.waitIdle() {
+			return "WEDGED"
+		}
+		return ""
+	}
+	// finish ends the current connection (EOF if the server has not closed it) and
+	// appends its projected replies.
+	finish := func() string {
+		cur.conn.sendEOF()
+		var pmsg string
+		select {
+		case pmsg = <-cur.done:
+		case <-time.After(20 * time.Second):
+			return "WEDGED-AT-END"
+		}
+		if pmsg != "" {
+			return "PANIC " + vh.HS(pmsg)
+		}
+		for i, u := range cur.conn.replyUnits() {
+			word := ""
+			if i > 0 && i-1 < len(cur.words) {
+				word = cur.words[i-1]
 			}
-			done <- ""
-		}()
-		srv.VerifServe(1, conn)
-	}()
-	wedged := !conn.waitIdle()
-	var words []string // command word of every complete line handed to the server
-	var pending []byte
-	if in[2] != "-" && !wedged {
+			outs = append(outs, w.project(word, u))
+		}
+		return ""
+	}
+	if bad := open(); bad != "" {
+		return []string{bad}
+	}
+	if in[2] != "-" {
 		for _, ev := range split(in[2], ",") {
 			arg := ev[1:]
+			conn := cur.conn
 			switch ev[0] {
 			case 'c':
 				if conn.isClosed() {
@@ -281,14 +302,14 @@ func exec(kind string, in []string) []string {
 				}
 				b := vh.U(arg)
 				for _, c := range b {
-					pending = append(pending, c)
+					cur.pending = append(cur.pending, c)
 					if c == '\n' {
-						words = append(words, commandWord(pending))
-						pending = nil
+						cur.words = append(cur.words, commandWord(cur.pending))
+						cur.pending = nil
 					}
 				}
 				if !conn.feed(b) {
-					wedged = true
+					return []string{"WEDGED"}
 				}
 			case 'd':
 				i := strings.IndexByte(arg, ':')
@@ -313,37 +334,23 @@ func exec(kind string, in []string) []string {
 					e = errors.New("connection reset by peer")
 				}
 				if !conn.failRead(e) {
-					wedged = true
+					return []string{"WEDGED"}
+				}
+			case 'n':
+				if bad := finish(); bad != "" {
+					return strings.Split(bad, " ")
+				}
+				outs = append(outs, "N")
+				if bad := open(); bad != "" {
+					return []string{bad}
 				}
 			}
-			if wedged {
-				break
-			}
 		}
 	}
-	if wedged {
-		return []string{"WEDGED"}
+	if bad := finish(); bad != "" {
+		return strings.Split(bad, " ")
 	}
-	conn.sendEOF()
-	var pmsg string
-	select {
-	case pmsg = <-done:
-	case <-time.After(20 * time.Second):
-		return []string{"WEDGED-AT-END"}
-	}
-	if pmsg != "" {
-		return []string{"PANIC", vh.HS(pmsg)}
-	}
-	srv.Drain() // the session must have left the WaitGroup
-	units := conn.replyUnits()
-	var outs []string
-	for i, u := range units {
-		word := ""
-		if i > 0 && i-1 < len(words) {
-			word = words[i-1]
-		}
-		outs = append(outs, w.project(word, u))
-	}
+	srv.Drain() // every session must have left the WaitGroup
 	var names []string
 	for n := range w.names {
 		names = append(names, n)
@@ -362,6 +369,31 @@ func exec(kind string, in []string) []string {
 		outs = append(outs, "S"+n+"="+strings.Join(rows, "."))
 	}
 	return outs
+}
+
+// session is one connection to the server under test.
+type session struct {
+	conn    *scriptConn
+	done    chan string
+	words   []string // command word of every complete line handed to the server
+	pending []byte
+}
+
+func startSession(srv *pop3.Server, id int) *session {
+	s := &session{conn: newScriptConn(), done: make(chan string, 1)}
+	go func() {
+		defer func() {
+			if r := recover(); r != nil {
+				fmt.Fprintf(os.Stderr, "session panic: %v\n%s\n", r, debug.Stack())
+				s.conn.Close()
+				s.done <- fmt.Sprint(r)
+				return
+			}
+			s.done <- ""
+		}()
+		srv.VerifServe(id, s.conn)
+	}()
+	return s
 }
 
 func main() {
